@@ -1,6 +1,6 @@
 from collections.abc import Callable
 from copy import deepcopy
-from types import EllipsisType, GenericAlias
+from types import EllipsisType, GenericAlias, MappingProxyType
 from typing import (
     Any,
     ClassVar,
@@ -88,6 +88,27 @@ class StateMeta(type):
         state_type.__match_args__ = state_type.__slots__  # pyright: ignore[reportAttributeAccessIssue]
 
         return state_type
+
+
+def _deepcopy_value(
+    value: Any,
+    memo: dict[int, Any] | None,
+) -> Any:
+    # read only mappings produced by validation are not supported by deepcopy, copy through them
+    match value:
+        case MappingProxyType():
+            return MappingProxyType(
+                {
+                    deepcopy(key, memo): _deepcopy_value(element, memo)
+                    for key, element in value.items()
+                }
+            )
+
+        case tuple() if type(value) is tuple:  # pyright: ignore[reportUnknownArgumentType]
+            return tuple(_deepcopy_value(element, memo) for element in value)  # pyright: ignore[reportUnknownVariableType]
+
+        case _:
+            return deepcopy(value, memo)
 
 
 _types_cache: WeakValueDictionary[
@@ -240,7 +261,7 @@ class State(metaclass=StateMeta):
     ) -> Self:
         copy: Self = self.__class__(
             **{
-                key: deepcopy(
+                key: _deepcopy_value(
                     value,
                     memo,
                 )
